@@ -58,8 +58,9 @@ GInit ==
           LET s1 == SizesOf(k, nb, tail, big)
               b1 == BlocksOf(s1)
               r1 == SegRec(s1, b1)
-          IN \A shape \in Shapes : \A c \in Caches :
-               PrintT(<<"CASE", ToJson(Case(k, nb, tail, big, shape, c, s1, b1, r1, s2, b2, r2))>>)
+          IN \A shape \in Shapes :
+               LET base == Case(k, nb, tail, big, shape, 0, s1, b1, r1, s2, b2, r2)
+               IN \A c \in Caches : PrintT(<<"CASE", ToJson([base EXCEPT !.cache = c])>>)
 GNext == done' = TRUE /\ UNCHANGED svars
 GSpec == GInit /\ [][GNext]_<<done, svars>>
 =============================================================================
